@@ -215,7 +215,7 @@ class Outcome:
         if k:
             if key not in [x[0] for x in self.known]:
                 self.known.append((key, k.get("what", what)))
-        else:
+        elif not any(v[0] == key and v[1] == replay for v in self.violations):
             self.violations.append((key, replay, what))
 
     def _structural_replay(self, n, key, what):
